@@ -146,6 +146,30 @@ class Bound:
         self.obj, self.name = obj, name
 
 
+class PartialVal:
+    """functools.partial(f, *args, **kwargs)"""
+    __slots__ = ("func", "args", "kwargs")
+
+    def __init__(self, func, args, kwargs):
+        self.func, self.args, self.kwargs = func, args, kwargs
+
+
+class NSVal:
+    """types.SimpleNamespace: a bag of attributes"""
+    __slots__ = ("attrs",)
+
+    def __init__(self):
+        self.attrs = {}
+
+
+class IndexExpr:
+    """np.s_ / np.index_exp: subscripting it gives the index itself"""
+    __slots__ = ("kind",)
+
+    def __init__(self, kind):
+        self.kind = kind
+
+
 class CountVal:
     """itertools.count(start, step)"""
     __slots__ = ("start", "step")
@@ -170,12 +194,14 @@ class IndexVal:
 
 
 class Frame:
-    __slots__ = ("env", "parent", "outer_names")
+    __slots__ = ("env", "parent", "outer_names", "yields", "comp")
 
-    def __init__(self, parent=None):
+    def __init__(self, parent=None, comp=False):
         self.env = {}
         self.parent = parent
         self.outer_names = set()       # names declared nonlocal
+        self.yields = None             # values yielded so far (generator functions are run to their end when they are called)
+        self.comp = comp               # the scope of a comprehension
 
 
 class _Return(Exception):
@@ -626,8 +652,26 @@ def matmul(a, b):
             return a * b
         return Unknown("matrix product with an operand that is not an array")
     x, y = as_arr(a), as_arr(b)
-    if x.ndim not in (1, 2) or y.ndim not in (1, 2):
-        return Unknown("matrix product of arrays with more than two dimensions")
+    if x.ndim == 0 or y.ndim == 0:
+        raise PyError("ValueError", "matmul: input operand does not have enough dimensions")
+    if x.ndim > 2 or y.ndim > 2:
+        # stacks of matrices: the leading axes broadcast, the last two are multiplied
+        x2 = x if x.ndim >= 2 else x.reshape((1, x.size))
+        y2 = y if y.ndim >= 2 else y.reshape((y.size, 1))
+        lead = bshape(x2.shape[:-2], y2.shape[:-2])
+        nx, ny = x2.shape[-2:], y2.shape[-2:]
+        xs = bflat(x2, lead + nx)
+        ys = bflat(y2, lead + ny)
+        out, kx, ky = [], nx[0] * nx[1], ny[0] * ny[1]
+        for k in range(_prod(lead)):
+            r = matmul(Arr.new(xs[k * kx:(k + 1) * kx], nx), Arr.new(ys[k * ky:(k + 1) * ky], ny))
+            out.extend(as_arr(r).flat())
+        res = Arr.new(out, lead + (nx[0], ny[1]))
+        if x.ndim == 1:
+            res = res.reshape(lead + (ny[1],))
+        elif y.ndim == 1:
+            res = res.reshape(lead + (nx[0],))
+        return res
     X = x.nested() if x.ndim == 2 else (x.nested(),)
     Y = y.nested() if y.ndim == 2 else tuple((v,) for v in y.nested())
     if len(X[0]) != len(Y) if X else True:
@@ -918,7 +962,7 @@ def canon_module(name):
 
 
 KNOWN_MODULES = {"np", "math", "linalg", "itertools", "copy", "warnings", "sys", "pd", "scipy", "locate", "ytools", "np.linalg", "pandas",
-                 "functools", "operator"}
+                 "functools", "operator", "types"}
 
 
 class Interp:
@@ -984,6 +1028,8 @@ class Interp:
             return CONST_NAMES[full]
         if full in SUBMODULES:
             return ModuleVal(canon_module(full))
+        if full in ("np.s_", "np.index_exp", "np.r_", "np.c_"):
+            return IndexExpr(full)
         return Builtin(full)
 
     def make_func(self, node, fr):
@@ -1011,7 +1057,7 @@ class Interp:
             return len(v.items) > 0
         if isinstance(v, DVal):
             return len(v.keys) > 0
-        if isinstance(v, (FuncVal, Builtin, ModuleVal, Table, Bound, IndexVal, CountVal)):
+        if isinstance(v, (FuncVal, Builtin, ModuleVal, Table, Bound, IndexVal, CountVal, PartialVal, NSVal)):
             return True
         if isinstance(v, Arr):
             if v.size != 1:
@@ -1135,6 +1181,21 @@ class Interp:
     def e_Starred(self, node, fr):
         raise Unsupported("starred expression")
 
+    def _gen_frame(self, fr):
+        while fr is not None and fr.comp:
+            fr = fr.parent
+        if fr is None or fr.yields is None:
+            raise Unsupported("yield outside a generator function")
+        return fr
+
+    def e_Yield(self, node, fr):
+        self._gen_frame(fr).yields.append(NONE if node.value is None else self.eval(node.value, fr))
+        return NONE
+
+    def e_YieldFrom(self, node, fr):
+        self._gen_frame(fr).yields.extend(self.iterate(self.eval(node.value, fr), node))
+        return NONE
+
     def e_Attribute(self, node, fr):
         return self.attr(self.eval(node.value, fr), node.attr, node)
 
@@ -1184,6 +1245,10 @@ class Interp:
             return F.fn("attr:" + name, v)
         if is_unknown(v):
             return v
+        if isinstance(v, NSVal):
+            if name not in v.attrs:
+                raise PyError("AttributeError", name)
+            return v.attrs[name]
         return Bound(v, name)
 
     def e_UnaryOp(self, node, fr):
@@ -1372,6 +1437,24 @@ class Interp:
             return base.vals[n]
         if isinstance(base, Indexer):
             return base.table.iloc(key) if base.kind == "iloc" else base.table.loc(key)
+        if isinstance(base, IndexExpr):
+            if base.kind in ("np.s_", "np.index_exp"):
+                return key
+            parts = list(key) if isinstance(key, tuple) else [key]
+            arrs = []
+            for q in parts:
+                sl = G.as_slice(q) if is_rat(q) else None
+                if sl is not None:
+                    ks = [None if x is None else G.int_of(x) for x in sl]
+                    if ks[1] is None or any(x is not None and y is None for x, y in zip(sl, ks)):
+                        raise Unsupported("np.r_ with a symbolic range")
+                    arrs.append(as_arr(tuple(F.const(i) for i in range(ks[0] or 0, ks[1], ks[2] or 1))))
+                else:
+                    a_ = as_arr(q)
+                    arrs.append(a_ if a_.ndim else a_.reshape((1,)))
+            if base.kind == "np.r_":
+                return _stack("concatenate")(self, [tuple(arrs)], {}, node)
+            return _stack("column_stack")(self, [tuple(arrs)], {}, node)
         if isinstance(base, Table):
             s = str_of(key) if is_rat(key) else None
             if s is not None:
@@ -1407,7 +1490,7 @@ class Interp:
 
     # ---------------------------------------------------------------- comprehensions
     def _comp(self, node, fr, emit):
-        sub = Frame(fr)
+        sub = Frame(fr, comp=True)
 
         def rec(k):
             if k == len(node.generators):
@@ -1496,6 +1579,10 @@ class Interp:
             return self.opaque_call(f.name, args, kwargs, node)
         if isinstance(f, Bound):
             return self.method(f.obj, f.name, args, kwargs, node)
+        if isinstance(f, PartialVal):
+            kw = dict(f.kwargs)
+            kw.update(kwargs)
+            return self.call(f.func, list(f.args) + list(args), kw, node)
         if is_rat(f):
             d = G.single_atom(f)
             name = d[1] if d is not None and d[0] == "s" else f"<{f!r}>"
@@ -1562,13 +1649,18 @@ class Interp:
         q = getattr(f.node, "_vqual", None)
         if q:
             self.ctx.src.funcs_consulted.add(f"{self.rel}:{q}")
+        if _is_generator(f.node):
+            fr.yields = []
         self.depth += 1
         try:
             self.run(f.node.body, fr)
         except _Return as r:
-            return r.value
+            if fr.yields is None:
+                return r.value
         finally:
             self.depth -= 1
+        if fr.yields is not None:
+            return tuple(fr.yields)       # a generator: its values, produced eagerly (sound for generators that only read)
         return NONE
 
     def method(self, obj, name, args, kwargs, node):
@@ -1668,6 +1760,8 @@ class Interp:
             obj = self.eval(t.value, fr)
             if is_rat(obj):
                 self.sh.cells.append((obj, mkstr("." + t.attr), v, node))
+            elif isinstance(obj, NSVal):
+                obj.attrs[t.attr] = v
             else:
                 raise Unsupported("attribute store")
         else:
@@ -1772,6 +1866,49 @@ class Interp:
             pass
         self.run(st.finalbody, fr)
 
+    def s_Match(self, st, fr):
+        subject = self.eval(st.subject, fr)
+        for case in st.cases:
+            if self.match(case.pattern, subject, fr, st) and (case.guard is None or self.decide(self.eval(case.guard, fr), case.guard)):
+                self.run(case.body, fr)
+                return
+
+    def match(self, pat, v, fr, node):
+        if isinstance(pat, ast.MatchValue):
+            return self.decide(self.compare("Eq", v, self.eval(pat.value, fr), node), pat)
+        if isinstance(pat, ast.MatchSingleton):
+            c = NONE if pat.value is None else (TRUE if pat.value else FALSE)
+            return self.decide(self.compare("Is", v, c, node), pat)
+        if isinstance(pat, ast.MatchAs):
+            if pat.pattern is not None and not self.match(pat.pattern, v, fr, node):
+                return False
+            if pat.name is not None:
+                self.assign_name(pat.name, v, fr)
+            return True
+        if isinstance(pat, ast.MatchOr):
+            return any(self.match(p, v, fr, node) for p in pat.patterns)
+        if isinstance(pat, ast.MatchSequence):
+            if not isinstance(v, (tuple, LVal, Arr)):
+                if is_rat(v) and not _objectlike(v):
+                    return False
+                raise Unsupported("sequence pattern on a value that is not a sequence")
+            items = self.iterate(v, node)
+            stars = [k for k, p in enumerate(pat.patterns) if isinstance(p, ast.MatchStar)]
+            if not stars:
+                return len(items) == len(pat.patterns) and all(self.match(p, x, fr, node) for p, x in zip(pat.patterns, items))
+            k = stars[0]
+            after = len(pat.patterns) - k - 1
+            if len(items) < len(pat.patterns) - 1:
+                return False
+            if not all(self.match(p, x, fr, node) for p, x in zip(pat.patterns[:k], items[:k])):
+                return False
+            if after and not all(self.match(p, x, fr, node) for p, x in zip(pat.patterns[k + 1:], items[len(items) - after:])):
+                return False
+            if pat.patterns[k].name is not None:
+                self.assign_name(pat.patterns[k].name, LVal(items[k:len(items) - after]), fr)
+            return True
+        raise Unsupported(f"pattern {type(pat).__name__}")
+
     def s_With(self, st, fr):
         for it in st.items:
             v = self.eval(it.context_expr, fr)
@@ -1784,6 +1921,24 @@ class Interp:
 
     def s_ClassDef(self, st, fr):
         raise Unsupported("class definition inside a function")
+
+
+_GEN = {}
+
+
+def _is_generator(fn):
+    r = _GEN.get(id(fn))
+    if r is None or r[0] is not fn:
+        def has_yield(n):
+            for ch in ast.iter_child_nodes(n):
+                if isinstance(ch, (ast.FunctionDef, ast.AsyncFunctionDef, ast.Lambda, ast.ClassDef)):
+                    continue
+                if isinstance(ch, (ast.Yield, ast.YieldFrom)) or has_yield(ch):
+                    return True
+            return False
+        r = (fn, has_yield(fn))
+        _GEN[id(fn)] = r
+    return r[1]
 
 
 def _handles(h, exc):
@@ -2323,6 +2478,149 @@ def L_array_equal(ip, args, kwargs, node):
     return v_all([_safe2(lambda x, y: G.compare("Eq", x, y), p, q) for p, q in zip(a.flat(), b.flat())])
 
 
+def L_tile(ip, args, kwargs, node):
+    a = as_arr(args[0])
+    reps = _shape_arg(args[1])
+    nd = max(a.ndim, len(reps))
+    a = a.reshape((1,) * (nd - a.ndim) + a.shape)
+    reps = (1,) * (nd - len(reps)) + tuple(reps)
+    out_shape = tuple(n * r for n, r in zip(a.shape, reps))
+    vals = a.flat()
+    st = _strides(a.shape)
+    out = [vals[sum((i % n) * s_ for i, n, s_ in zip(ix, a.shape, st))] for ix in itertools.product(*[range(n) for n in out_shape])]
+    return Arr.new(out, out_shape)
+
+
+def L_repeat(ip, args, kwargs, node):
+    a = as_arr(args[0])
+    n = _int(_arg(args, kwargs, 1, "repeats"), "repeats")
+    axis = _axis(kwargs, args, 2)
+    if axis is None:
+        return Arr.new([v for v in a.flat() for _ in range(n)], (a.size * n,))
+    axis %= a.ndim
+    key = tuple(G.slice_value(None, None, None) if k != axis else Arr.new([F.const(i) for i in range(a.shape[axis]) for _ in range(n)], (a.shape[axis] * n,))
+                for k in range(a.ndim))
+    return a.get(key)
+
+
+def L_kron(ip, args, kwargs, node):
+    a, b = as_arr(args[0]), as_arr(args[1])
+    if a.ndim != 2 or b.ndim != 2:
+        return NotImplemented
+    A, B = a.nested(), b.nested()
+    out = [_safe2(s_mul, A[i][j], B[k][l]) for i in range(a.shape[0]) for k in range(b.shape[0]) for j in range(a.shape[1]) for l in range(b.shape[1])]
+    return Arr.new(out, (a.shape[0] * b.shape[0], a.shape[1] * b.shape[1]))
+
+
+def L_block(ip, args, kwargs, node):
+    def rec(x, depth):
+        if isinstance(x, LVal):
+            parts = [rec(y, depth + 1) for y in x.items]
+            nd = max(p.ndim for p in parts)
+            parts = [p.reshape((1,) * (nd - p.ndim) + p.shape) for p in parts]
+            return _stack("concatenate")(ip, [tuple(parts)], {"axis": F.const(-1 if not any(isinstance(y, LVal) for y in x.items) else -2)}, node)
+        a = as_arr(x)
+        return a if a.ndim else a.reshape((1,))
+    return rec(args[0], 0)
+
+
+def L_outer(ip, args, kwargs, node):
+    a, b = as_arr(args[0]), as_arr(args[1])
+    x, y = a.flat(), b.flat()
+    return Arr.new([_safe2(s_mul, p, q) for p in x for q in y], (len(x), len(y)))
+
+
+def L_swapaxes(ip, args, kwargs, node):
+    a = as_arr(args[0])
+    i, j = _int(args[1], "axis") % a.ndim, _int(args[2], "axis") % a.ndim
+    ax = list(range(a.ndim))
+    ax[i], ax[j] = ax[j], ax[i]
+    return a.transpose(ax)
+
+
+def L_expand_dims(ip, args, kwargs, node):
+    a = as_arr(args[0])
+    k = _int(_arg(args, kwargs, 1, "axis"), "axis") % (a.ndim + 1)
+    return a.reshape(a.shape[:k] + (1,) + a.shape[k:])
+
+
+def L_fill_diagonal(ip, args, kwargs, node):
+    a = args[0]
+    if not isinstance(a, Arr) or a.ndim != 2:
+        return NotImplemented
+    n = min(a.shape)
+    idx = Arr.new([F.const(i) for i in range(n)], (n,))
+    a.set((idx, idx), args[1])
+    return NONE
+
+
+def L_trace(ip, args, kwargs, node):
+    a = as_arr(args[0])
+    if a.ndim != 2:
+        return NotImplemented
+    return v_sum([a.get((F.const(i), F.const(i))) for i in range(min(a.shape))])
+
+
+def L_prod(ip, args, kwargs, node):
+    def f(vals):
+        tot = F.const(1)
+        for v in vals:
+            if is_unknown(v):
+                return v
+            tot = tot * v
+        return tot
+    return reduce_axis(args[0], _axis(kwargs, args, 1), f) if _arrayish(args[0]) else NotImplemented
+
+
+def L_append(ip, args, kwargs, node):
+    a, b = as_arr(args[0]), as_arr(args[1])
+    if _axis(kwargs, args, 2) is not None:
+        return _stack("concatenate")(ip, [(a, b)], {"axis": F.const(_axis(kwargs, args, 2))}, node)
+    return Arr.new(a.flat() + b.flat(), (a.size + b.size,))
+
+
+def L_take(ip, args, kwargs, node):
+    a = as_arr(args[0])
+    axis = _axis(kwargs, args, 2)
+    idx = args[1]
+    if axis is None:
+        return a.reshape((a.size,)).get(idx)
+    axis %= a.ndim
+    return a.get(tuple(G.slice_value(None, None, None) if k != axis else idx for k in range(a.ndim)))
+
+
+def _cmp_fn(op):
+    def g(ip, args, kwargs, node):
+        return lift2(lambda x, y: G.compare(op, x, y), args[0], args[1])
+    return g
+
+
+def L_partial(ip, args, kwargs, node):
+    return PartialVal(args[0], list(args[1:]), dict(kwargs))
+
+
+def L_reduce(ip, args, kwargs, node):
+    items = ip.iterate(args[1], node)
+    if len(args) > 2:
+        items = [args[2]] + items
+    if not items:
+        raise PyError("TypeError", "reduce() of empty iterable with no initial value")
+    acc = items[0]
+    for x in items[1:]:
+        acc = ip.call(args[0], [acc, x], {}, node)
+    return acc
+
+
+def L_namespace(ip, args, kwargs, node):
+    ns = NSVal()
+    ns.attrs.update(kwargs)
+    return ns
+
+
+def L_divmod(ip, args, kwargs, node):
+    return (lift2(s_floordiv, args[0], args[1]), lift2(s_mod, args[0], args[1]))
+
+
 def L_noop(ip, args, kwargs, node):
     return NONE
 
@@ -2378,6 +2676,13 @@ LIB = {
     "itertools.count": L_count, "itertools.product": L_product, "itertools.chain": L_chain,
     "copy.copy": L_copy, "copy.deepcopy": L_copy, "np.ix_": L_ix, "np.diag": L_diag, "np.array_equal": L_array_equal,
     "print": L_noop, "warnings.warn": L_noop, "isinstance": L_isinstance,
+    "np.tile": L_tile, "np.repeat": L_repeat, "np.kron": L_kron, "np.block": L_block, "np.outer": L_outer, "np.swapaxes": L_swapaxes,
+    "np.expand_dims": L_expand_dims, "np.fill_diagonal": L_fill_diagonal, "np.trace": L_trace, "np.prod": L_prod, "np.append": L_append,
+    "np.take": L_take, "np.equal": _cmp_fn("Eq"), "np.not_equal": _cmp_fn("NotEq"), "np.greater": _cmp_fn("Gt"), "np.less": _cmp_fn("Lt"),
+    "np.greater_equal": _cmp_fn("GtE"), "np.less_equal": _cmp_fn("LtE"), "np.divide": _binary(s_div), "np.true_divide": _binary(s_div),
+    "functools.partial": L_partial, "functools.reduce": L_reduce, "types.SimpleNamespace": L_namespace, "SimpleNamespace": L_namespace,
+    "divmod": L_divmod, "operator.matmul": L_dot, "operator.add": _binary(s_add), "operator.sub": _binary(s_sub), "operator.mul": _binary(s_mul),
+    "operator.neg": _unary(lambda x: -x), "np.ravel": lambda ip, a, k, n: M_ravel(ip, as_arr(a[0]), [], {}, n),
 }
 
 
